@@ -67,7 +67,19 @@ NestedTemplates ==
 Statics == {DBlock("p", <<>>, <<DAttr("a", NNum(6))>>), DBlock("p", <<>>, <<>>), DBlock("q", <<"z">>, <<DAttr("a", StrLit("s"))>>),
             DAttr("a", NNum(2))}
 
-ItemPool == Statics \cup DynTemplates \cup (IF NestMode = "nested" THEN NestedTemplates ELSE {})
+\* a small pool for longer bodies (NestMode = "mix"): three statics, dynamics over a list, a map, an
+\* empty list and null with two contents, a custom iterator, a labelled dynamic and two nested ones
+MixPool ==
+    {DBlock("p", <<>>, <<DAttr("a", NNum(6))>>), DBlock("q", <<"z">>, <<DAttr("a", StrLit("s"))>>), DAttr("a", NNum(2))}
+    \cup {DDyn("p", "", c, <<>>, b) : c \in {NVar("l"), NVar("m"), NVar("e"), NVar("nul")},
+                                     b \in {<<DAttr("a", IV("p", "value"))>>, <<DAttr("a", IV("p", "key"))>>}}
+    \cup {DDyn("p", "it", NVar("m"), <<>>, <<DAttr("a", IV("it", "key"))>>),
+          DDyn("q", "", NVar("m"), <<IV("q", "key")>>, <<DAttr("a", IV("q", "value"))>>),
+          DDyn("q", "", NVar("ls"), <<IV("q", "key")>>, <<>>)}
+    \cup {DDyn("p", "it", NVar("l"), <<>>, b) : b \in NestedContent("it")}
+
+ItemPool == IF NestMode = "mix" THEN MixPool
+            ELSE Statics \cup DynTemplates \cup (IF NestMode = "nested" THEN NestedTemplates ELSE {})
 
 InnerList == SBlockList("p", 0, 0, SAttr("a", TDyn, FALSE))
 Specs == {SBlockList("p", 0, 0, SAttr("a", TStr, FALSE)),
